@@ -186,6 +186,10 @@ pub fn meta(id: &str, tier: &str) -> Meta {
     };
     let mut rule = rule.to_string();
     let mut goals = goals;
+    if matches!(id, "C01" | "C07" | "C08" | "C09") {
+        rule.push_str("; after every epoch change one member (rotating) is additionally written to storage and loaded again on a fork, and the reloaded copy must show the same observable epoch state (and, for C08 / C09, pass the tree / private-key oracles)");
+        goals.push("reloaded-copy");
+    }
     if deviating {
         rule.push_str("; the runs with deviation bound K > 0 additionally take, at up to K rounds per path, a deviating round: another member first builds a commit of its own (with and without an Add) that stays pending and then receives the winning commit (its pending commit must be gone, everything else as in a normal round), or the committer receives its own commit back from the delivery service instead of calling apply_pending_commit");
         goals.push("race");
